@@ -6,6 +6,8 @@ V = os.path.dirname(os.path.dirname(os.path.abspath(__file__)))
 TECH = "explicit TLA+ specification; TLC model-checks its laws (mutant twins must fail), generates the cases, and judges the outcomes recorded from the real Go code"
 
 CHECKS = {
+ "C02": ("TLC walks every element-name path of every generated resource's annotated FHIR JSON tree; at every state it checks that step-wise navigation (FPNav) equals the independent characterisation 'all nodes in document order with this name path', that indexers are positional and that unknown names are errors (mutant twins: first-child-only, reversed order, no flattening must fail), and emits paths, indexed paths, per-node paths, .value reads, unknown and absent names and mismatched roots. Every case is evaluated by the real Compile/Evaluate on the very resource the tree was rendered from, and TLC judges the result item by item (address identity for input nodes, content hash for contained resources, value for primitives).",
+         "Bounded: generated resources (schema-driven from google/fhir descriptors, all 146 types in the thorough tier) and their own paths; trusted: TLC, FPNav text, google/fhir jsonformat (tree rendering), the annotator (self-checked: every JSON member has a node).", "DESIGN.md section 6 C02"),
  "C05": ("TLC checks symmetry, negation, mirror, trichotomy, transitivity, congruence and anchor laws of the reference comparison model (FPCompare) over the whole value pool and emits every ordered pair x six operators (literal forms, plus rotating environment-variable and FHIR-element forms) and the collection variants; every case is executed through Compile/Evaluate and judged by TLC against the model's permitted-answer sets; each operand evaluated alone must denote the pool value.",
          "Bounded: the 82-value pool and 12 base collections named in DESIGN.md C05; trusted: TLC, FPCompare/FPBigNum text, the harness projection, the library's Parse* constructors for environment operands (re-checked per operand).", "DESIGN.md section 6 C05, Appendix F"),
  "C06": ("TLC checks the Kleene laws on the specification's truth tables and explores the complete space of (context, operator, operand form, operand form) cases; every explored transition is replayed in the real code and judged by TLC against the specification's tables. Exhaustive over the finite space the property's quantifier names.",
